@@ -1016,7 +1016,12 @@ class CallsMixin:
         if c is not None and not c.inline and not force_inline:
             return self.apply_contract(c, bound, st)
         if c is None and not force_inline and key not in self.reg.inline_ok:
-            raise OutOfSubset(f"no contract for callee {key} (conc args {sorted(conc)})")
+            if self.reg.contracts.get(key):
+                # the function is under contract but no instance fits this call site
+                raise OutOfSubset(f"no contract for callee {key} (conc args {sorted(conc)})")
+            # a package function without any contract (an extracted helper): its real body is
+            # executed in place (depth-limited; a loop in it still needs a sidecar invariant)
+            self.ctx.notes.append(f"callee {key} has no contract: body inlined")
         clo = Closure(info.node, None, info.qualname, info.module)
         return self.inline_expr_closure(clo, bound, st, allow_stmts=True)
 
@@ -1076,7 +1081,17 @@ class CallsMixin:
             if len(normal) == 0:
                 raise DeadPath()
             if len(normal) > 1:
-                raise OutOfSubset(f"inlined {c.qualname} has {len(normal)} normal paths in expression position")
+                # join the paths (ite over their conditions) when they differ only in values
+                results = []
+                for o in normal:
+                    o.st.cur = saved
+                    results.append((o.val if o.kind == "return" and o.val is not None else VNONE, o.st))
+                merged = self.merge_results(results, st)
+                if merged is None:
+                    raise OutOfSubset(f"inlined {c.qualname} has {len(normal)} normal paths in expression position")
+                val, ms = merged
+                st.pc, st.guards, st.levels = ms.pc, ms.guards, ms.levels
+                return val
             o = normal[0]
             st.pc, st.guards, st.levels = o.st.pc, o.st.guards, o.st.levels
             return o.val if o.kind == "return" and o.val is not None else VNONE
